@@ -40,6 +40,9 @@ SOLVER_SCALING = {
     'ref_ref0': {'c1.y': dict(ref=3.0, ref0=-1.5, res_ref=0.25), 'ivc.p': dict(ref=4.0, ref0=1.0)},
     'neg_arr': {'c1.y': dict(ref=[-2.0, 4.0, 0.5], ref0=[0.5, 0.25, -1.0]),
                 'c2.y': dict(ref=0.0, ref0=1.0, res_ref=[2.0, 8.0])},
+    # output scaling without residual scaling (res_ref stays 1)
+    'ref_res1': {'c1.y': dict(ref=2.5, res_ref=1.0), 'c2.y': dict(ref0=0.5, res_ref=1.0),
+                 'c3.y': dict(ref=-4.0, res_ref=1.0)},
 }
 
 DIMS = collections.OrderedDict([
@@ -84,7 +87,157 @@ def cases(tier, seed):
     out = explore.dedupe(out)
     for c in out:
         c['palette'] = pal
+    # implicit component with two states and cross partials in every declaration format
+    for fa in TS_FMTS:
+        for fb in TS_FMTS:
+            for ln in TS_LN:
+                for k, fuu in enumerate(TS_FMTS):
+                    if tier == 'quick' and (TS_FMTS.index(fa) + TS_FMTS.index(fb) + k) % 3:
+                        continue
+                    out.append({'twostate': True, 'fmt_uu': fuu, 'fmt_uv': fa, 'fmt_vu': fb,
+                                'ln': ln, 'perm': (k % 2 == 0), 'units': (k % 3 == 0),
+                                'palette': pal})
     return out
+
+
+TS_FMTS = ['diag', 'rowcol', 'dense', 'coo', 'csr', 'csc']
+TS_LN = ['Krylov', 'LNBGS', 'Direct_noasm', 'Direct', 'LNBJ']
+
+
+def _twostate_problem(case):
+    """one implicit component with two states whose cross partials are declared in `fmt`"""
+    import openmdao.api as om
+    import scipy.sparse as sp
+    n = 3
+    fa, fb = case['fmt_uv'], case['fmt_vu']
+    du = np.array([4.0, 5.5, 3.25])
+    e = np.array([0.5, -0.75, 1.25])
+    f = np.array([-0.375, 0.625, 0.875])
+    M = ir.diag_dominant(n, 3, case.get('palette', 0))
+    A = ir.gen_matrix(n, n, 5, case.get('palette', 0), 0.25)
+    rows = cols = np.arange(n)
+
+    def decl(comp, of, wrt, fmt):
+        if fmt == 'diag':
+            comp.declare_partials(of, wrt, diagonal=True)
+        elif fmt == 'rowcol':
+            comp.declare_partials(of, wrt, rows=rows, cols=cols)
+        elif fmt == 'dense':
+            comp.declare_partials(of, wrt)
+        else:
+            m = sp.coo_matrix((np.ones(n), (rows, cols)), shape=(n, n))
+            comp.declare_partials(of, wrt, val={'coo': m, 'csr': m.tocsr(), 'csc': m.tocsc()}[fmt])
+
+    def val(fmt, d):
+        if fmt in ('diag', 'rowcol'):
+            return d
+        if fmt == 'dense':
+            return np.diag(d)
+        m = sp.coo_matrix((d, (rows, cols)), shape=(n, n))
+        return {'coo': m, 'csr': m.tocsr(), 'csc': m.tocsc()}[fmt]
+
+    class TwoState(om.ImplicitComponent):
+        def setup(self):
+            self.add_input('x', np.ones(n), units='cm' if case['units'] else None)
+            self.add_output('u', np.ones(n))
+            self.add_output('v', np.ones(n))
+            decl(self, 'u', 'u', case['fmt_uu'])
+            decl(self, 'u', 'v', fa)
+            decl(self, 'v', 'u', fb)
+            self.declare_partials('v', 'v')
+            self.declare_partials('u', 'x')
+
+        def apply_nonlinear(self, i, o, r):
+            r['u'] = du * o['u'] + e * o['v'] - A @ i['x']
+            r['v'] = M @ o['v'] + f * o['u'] - 1.5
+
+        def linearize(self, i, o, J):
+            J['u', 'u'] = val(case['fmt_uu'], du)
+            J['u', 'v'] = val(fa, e)
+            J['v', 'u'] = val(fb, f)
+            J['v', 'v'] = M
+            J['u', 'x'] = -A
+
+    p = om.Problem(reports=None)
+    p.model.add_subsystem('ivc', om.IndepVarComp('p', np.array([0.5, -1.25, 2.0]),
+                                                 units='m' if case['units'] else None))
+    p.model.add_subsystem('c', TwoState())
+    p.model.add_subsystem('d', om.ExecComp('z = 2.0*u + 3.0*v', u=np.ones(n), v=np.ones(n),
+                                           z=np.ones(n)))
+    p.model.connect('ivc.p', 'c.x', src_indices=[2, 0, 1] if case['perm'] else None)
+    p.model.connect('c.u', 'd.u')
+    p.model.connect('c.v', 'd.v', src_indices=[1, 1, 0] if case['perm'] else None)
+    ln = case['ln']
+    if ln == 'Krylov':
+        p.model.linear_solver = om.ScipyKrylov(atol=1e-14, rtol=1e-14, maxiter=200)
+    elif ln == 'LNBGS':
+        p.model.linear_solver = om.LinearBlockGS(atol=1e-14, rtol=1e-14, maxiter=300)
+        p.model.c.linear_solver = om.DirectSolver(assemble_jac=False)
+    elif ln == 'LNBJ':
+        p.model.linear_solver = om.LinearBlockJac(atol=1e-14, rtol=1e-14, maxiter=500)
+        p.model.c.linear_solver = om.DirectSolver(assemble_jac=False)
+    elif ln == 'Direct_noasm':
+        p.model.linear_solver = om.DirectSolver(assemble_jac=False)
+    else:
+        p.model.linear_solver = om.DirectSolver()
+    p.model.nonlinear_solver = om.NewtonSolver(solve_subsystems=False, iprint=-1, maxiter=20,
+                                               atol=1e-13, rtol=1e-13)
+    p.setup(mode='rev')
+    p.run_model()
+    p.model.run_linearize()
+    return p
+
+
+def _check_twostate(case):
+    import openmdao.api as om
+    cls = 'twostate/%s/%s/%s/%s%s%s' % (case['fmt_uu'], case['fmt_uv'], case['fmt_vu'], case['ln'],
+                                        '/perm' if case['perm'] else '',
+                                        '/units' if case['units'] else '')
+    vio = []
+    buf = io.StringIO()
+    try:
+        with contextlib.redirect_stdout(buf), contextlib.redirect_stderr(buf):
+            pf = _twostate_problem(case)
+            pr = _twostate_problem(case)
+    except Exception as exc:
+        return {'evals': 1, 'outcome': 'violation', 'violations': [{
+            'sig': 'C02:build_or_run_raises:' + cls, 'case': case,
+            'msg': '%s: %s' % (type(exc).__name__, str(exc)[:300])}]}
+    evals = nontriv = 0
+    none = np.zeros(0, dtype=int)
+    try:
+        with contextlib.redirect_stdout(buf), contextlib.redirect_stderr(buf):
+            for path in ('', 'c'):
+                sf = pf.model if not path else pf.model.c
+                sr = pr.model if not path else pr.model.c
+                ext = none
+                if path:
+                    ext = _ranges(sf._dinputs, list(sf._var_allprocs_abs2meta['input']))
+                Mr = _sys_operator(sr, pr.model, 'rev', ext)        # reverse first, fresh problem
+                Mf = _sys_operator(sf, pf.model, 'fwd', ext)
+                evals += Mf.shape[0] + Mf.shape[1]
+                err = float(np.max(np.abs(Mf - Mr)))
+                if not np.isfinite(err) or err > 1e-11 * max(1.0, float(np.max(np.abs(Mf)))):
+                    i, j = np.unravel_index(np.argmax(np.abs(Mf - Mr)), Mf.shape)
+                    vio.append({'sig': 'C02:apply_linear_%s:%s' % ('comp' if path else 'group', cls),
+                                'case': case, 'msg': 'twostate %s: fwd and rev operators of %r differ: '
+                                'max err %.3e at (%d,%d): fwd %.10g rev %.10g' % (
+                                    cls, path or 'root', err, i, j, Mf[i, j], Mr[i, j])})
+                nontriv += 1
+            Sr = _solve_operator(pr.model, 'rev')
+            Sf = _solve_operator(pf.model, 'fwd')
+            evals += 2 * Sf.shape[0]
+            err = float(np.max(np.abs(Sf - Sr)))
+            if not np.isfinite(err) or err > 1e-9 * max(1.0, float(np.max(np.abs(Sf)))):
+                i, j = np.unravel_index(np.argmax(np.abs(Sf - Sr)), Sf.shape)
+                vio.append({'sig': 'C02:solve_linear:%s' % cls, 'case': case,
+                            'msg': 'twostate %s: fwd and rev solves differ: max err %.3e at (%d,%d): '
+                            'fwd %.10g rev %.10g' % (cls, err, i, j, Sf[i, j], Sr[i, j])})
+            nontriv += 1
+    except om.AnalysisError:
+        return {'evals': evals, 'outcome': 'not_converged', 'violations': []}
+    return {'evals': evals, 'nontrivial': nontriv if not vio else 0,
+            'outcome': {'violation': 1} if vio else {'twostate': 1}, 'violations': vio, 'sample': cls}
 
 
 def _cls(cfg):
@@ -192,6 +345,8 @@ def _solve_operator(model, mode):
 
 def check_case(cfg):
     import openmdao.api as om
+    if cfg.get('twostate'):
+        return _check_twostate(cfg)
     cls = _cls(cfg)
     c2 = dict(cfg)
     c2['solver_scaling'] = SOLVER_SCALING[cfg.get('sscale', 'none')]
@@ -215,6 +370,18 @@ def check_case(cfg):
         V('build_or_run_raises', '%s: %s' % (type(exc).__name__, str(exc)[:300]))
         return {'evals': 1, 'outcome': 'violation', 'violations': vio}
     model = prob.model
+    # the reverse operators are taken from a second, fresh Problem so that views and caches
+    # filled by a forward application cannot hide a wrong reverse path (and vice versa)
+    try:
+        with contextlib.redirect_stdout(buf), contextlib.redirect_stderr(buf):
+            prob_r, _ = ir.build(spec, mode='rev')
+            prob_r.run_model()
+            prob_r.model.run_linearize()
+    except Exception as exc:
+        V('build_or_run_raises', 'second build: %s: %s' % (type(exc).__name__, str(exc)[:300]))
+        return {'evals': 1, 'outcome': 'violation', 'violations': vio}
+    model_r = prob_r.model
+    sys_r = {s_.pathname: s_ for s_ in model_r.system_iter(include_self=True, recurse=True)}
     evals = 0
     nontriv = 0
     ops = collections.Counter()
@@ -246,21 +413,21 @@ def check_case(cfg):
                 ext = [n for n in s._var_allprocs_abs2meta['input']
                        if conns.get(n) not in outs]
                 ext_idx = _ranges(s._dinputs, ext)
+                Mr = _sys_operator(sys_r[s.pathname], model_r, 'rev', ext_idx)
                 Mf = _sys_operator(s, model, 'fwd', ext_idx)
-                Mr = _sys_operator(s, model, 'rev', ext_idx)
                 evals += Mf.shape[0] + Mf.shape[1]
                 kind = 'group' if isinstance(s, om.Group) else 'comp'
                 compare('apply_linear_%s:%s' % (kind, s.pathname or 'root'), Mf, Mr, 1e-11)
             # (c) transfers of every group
             for s in model.system_iter(include_self=True, recurse=True, typ=om.Group):
+                Tr = _transfer_operator(sys_r[s.pathname], 'rev')
                 Tf = _transfer_operator(s, 'fwd')
-                Tr = _transfer_operator(s, 'rev')
                 evals += Tf.shape[0] + Tf.shape[1]
                 compare('transfer:%s' % (s.pathname or 'root'), Tf, Tr, 1e-13)
             # (d) solve_linear at the root
             try:
+                Sr = _solve_operator(model_r, 'rev')
                 Sf = _solve_operator(model, 'fwd')
-                Sr = _solve_operator(model, 'rev')
                 evals += 2 * Sf.shape[0]
                 compare('solve_linear:root', Sf, Sr, 1e-9)
             except om.AnalysisError:
@@ -289,7 +456,7 @@ def check_case(cfg):
                     for k in range(of_sz[oi]):
                         seed = {n: np.zeros(sh) for n, sh in zip(of_names, of_sh)}
                         seed[on].flat[k] = 1.0
-                        res = prob.compute_jacvec_product(of_names, wrt_names, 'rev', seed)
+                        res = prob_r.compute_jacvec_product(of_names, wrt_names, 'rev', seed)
                         Jr[row, :] = np.concatenate([np.asarray(res[n]).ravel() for n in wrt_names])
                         row += 1
                 evals += Jf.shape[0] + Jf.shape[1]
